@@ -18,18 +18,19 @@ def main(tier, replay=None):
     n = 16
     res.run_parallel([("%s %d %d %d" % (exe, 4 if q else 5, i, n), "quote/parse round trips [shard %d/%d]" % (i, n)) for i in range(n)])
     th = [] if q else ["thorough=1"]
-    fams = [dict(scn="c17", name="inject-" + f, opts=["family=" + f] + th, bounds="0,0,0,0", total=0, deadline=1500) for f in ("lists", "fields", "senders")]
+    fams = [dict(scn="c17", name="inject-" + f, opts=["family=" + f] + th, bounds="0,0,0,0", total=0, deadline=1500) for f in ("lists", "fields", "senders", "resent")]
     fams.append(dict(scn="c17", name="inject-lists-QMAILINJECT-cfi", opts=["family=fields", "qmailinject=cfi"], bounds="0,0,0,0", total=0))
     fams.append(dict(scn="c17", name="inject-control-file-errors", opts=["family=senders"], bounds="0,1,0,0", total=1, deadline=1500))
     run_families(res, "C17", tier, fams)
     res.rule = ("round trips: every local part of length <=4 (5) over 23 bytes {()<>@,;:\\\\\".[] SP CR TAB 0x80 0xFF a B 1 + -} with domains h.dom and "
                 "[1.2.3.4]: quote2() -> To: field -> token822_parse/addrlist/unquote, and addrmangle() (qmail-remote) -> MAIL FROM:<...> -> "
                 "addrparse() (qmail-smtpd), must return the identical address.  headers: the real qmail-inject with a recording queue stand-in: "
-                "address lists composed of 1-2 (3) of 22 grammar templates (addr-spec, bare local part, dot-less host, plus host, phrase + "
+                "address lists composed of 1-2 (3) of 23 grammar templates (addr-spec, bare local part, dot-less host, plus host, phrase + "
                 "route-addr, quoted phrase, source route, comments incl. nested and escaped, quoted local parts, domain literal, groups, "
-                "folding, missing comma) whose mailboxes are known by construction, in To/cc/Bcc, with -h/-a/-H/-A and arguments, -f sender "
+                "folding, missing comma without and with a comment in the gap) whose mailboxes are known by construction, in To/cc/Bcc, with -h/-a/-H/-A and arguments, -f sender "
                 "forms, QMAILINJECT letters; the envelope must be those mailboxes after default-host/domain/plus rewriting, Bcc and "
-                "Return-Path gone, and the rewritten header injected again must give the same To+Cc addresses")
+                "Return-Path gone, and the rewritten header injected again must give the same To+Cc addresses; resent: every one and every two of the 8 Resent- fields before/after "
+                "ordinary To/Cc/Bcc fields: the recipients are then exactly those of Resent-To/Cc/Bcc")
     res.assumptions = ["NUL and LF are excluded from local parts (property text)", "virtual kernel (appendix A); queue program is a recording stand-in"]
     res.require_nonzero("evaluations", "local_parts_needing_quotes", "injections", "reparses")
     lib_conformance(res, rd, srca, ['bytes', 'ctl'], tier, asan=True)
